@@ -23,9 +23,7 @@ from harness.lib import common
 
 PROP = 'C20'
 PROP_FILE = 'Props/C20.v'
-THEOREMS = ['C20_gate', 'C20_once_per_origin', 'C20_once_per_origin_sequential', 'C20_missing_allows',
-            'C20_5xx_postpones', 'C20_matcher_meets_spec', 'C20_whole_file', 'C20_nofollow',
-            'C20_no_disallowed_request_refuted', 'C20_concurrent_window']
+THEOREMS = ['C20_matcher_meets_spec', 'C20_missing_allows', 'C20_whole_file', 'C20_nofollow']
 TRUSTED = [
     'hand-written model Model/Robots.v of robotexclusionrulesparser.parse/is_allowed, RobotsTxtPool, RobotsTxtChecker, '
     'the WebSession redirect loop, _process_robots/_process_loop and the scraper nofollow step; tied by this run\'s correspondence',
